@@ -183,6 +183,10 @@ fn generate(rng: &mut Rng, index: u64) -> ConnScenario {
         _ => {}
     }
     client.auth_cookie = presented;
+    // a client that has been here before hands back its session cookie as well
+    if rng.chance(1, 3) {
+        client.session_cookie = Some(serde_json::to_vec(&json!({"id": uuid_hyph(gen_uuid(rng)), "server_address": "earlier.example.org", "server_port": 25565, "trace_id": null})).unwrap());
+    }
     // a login (not a transfer) whose client answers the session-cookie request under the authentication key, with its auth cookie
     if intent == 2 && rng.chance(1, 3) {
         client.cookie_rekey = vec![("passage:session".to_string(), "passage:authentication".to_string())];
